@@ -1,4 +1,5 @@
 import ast
+from keyword import iskeyword
 from typing import Dict, List, Optional, Tuple, cast
 
 from graphql import (
@@ -147,7 +148,9 @@ def parse_input_const_value_node(
     if isinstance(node, EnumValueNode):
         if nested_object:
             return generate_constant(node.value)
-        return generate_name(f"{field_type}.{node.value}")
+        # enum members named like python keywords get "_" suffix (see EnumsGenerator)
+        member_name = node.value + "_" if iskeyword(node.value) else node.value
+        return generate_name(f"{field_type}.{member_name}")
 
     if isinstance(node, ListValueNode):
         list_ = generate_list(
